@@ -48,11 +48,14 @@ _IOV_NOTE = ("Trusted: Lean kernel + 3 standard axioms; the correspondence harne
              "std Vec/VecDeque/Arc, smallvec modelled; 64-bit usize; allocation failure not modelled.")
 _IOV_FAM = dict(name="iovec", quick=1500, thorough=48000)
 
-def _iov(pid, title, theorems, modules, vtags, obs, text, partial=""):
+_CODECW_FAM = dict(name="codecw", quick=160, thorough=4000, search=800, shards=dict(quick=8, thorough=16))
+
+def _iov(pid, title, theorems, modules, vtags, obs, text, partial="", codecw=False):
     fam = dict(_IOV_FAM)
     fam["obs_prefixes"] = obs
     SPECS[pid] = dict(
-        title=title, lean_modules=modules, theorems=theorems, families=[fam], vtags=vtags,
+        title=title, lean_modules=modules, theorems=theorems,
+        families=[fam] + ([dict(_CODECW_FAM, obs_prefixes=obs + ["G"])] if codecw else []), vtags=vtags,
         technique="Lean 4 proof over a structural model of OwningIovec (invariants by induction over operation histories) + model/implementation correspondence with live-chunk registry hook",
         design_ref="DESIGN.md section 5, " + pid,
         level_text=text, level_note=_IOV_NOTE + partial,
